@@ -1,9 +1,9 @@
 package main
 
 import (
-	"regexp"
 	"encoding/json"
 	"fmt"
+	"regexp"
 	"sort"
 	"strings"
 
@@ -71,7 +71,28 @@ func c12Families() []gram.Named {
 		{"default-start-symbol", gram.Parse("", abc, "start: TA S ; S: TB | S TB")},
 		{"default-start-symbol-recursive", gram.Parse("", abc, "start: start TA | TB")},
 		{"all-terminal-chain", gram.Parse("S", abc, "S: A TA ; A: B TB ; B: TC")},
+		// well-formed grammars with large automata below the limit of 2000 states
+		{"states-1557", gram.Trie([]string{"TA", "TB", "TC", "TD", "TE", "TF"}, 4)},
+		{"states-1999", c12StatesExactly(1999)},
 	}
+}
+
+// c12StatesExactly builds a conflict-free grammar whose LR(0) automaton has
+// exactly n states: the trie of all 4-token strings over six terminals plus
+// one alternative that is a chain of a seventh terminal (one state per symbol).
+func c12StatesExactly(n int) *gram.Spec {
+	mk := func(chain int) *gram.Spec {
+		s := gram.Trie([]string{"TA", "TB", "TC", "TD", "TE", "TF"}, 4)
+		s.Tokens = append(s.Tokens, gram.TokDecl{Name: "TG"})
+		r := gram.Rule{L: "S"}
+		for i := 0; i < chain; i++ {
+			r.R = append(r.R, "TG")
+		}
+		s.Rules = append(s.Rules, r)
+		return s
+	}
+	base := len(ref.FromSpec(mk(1)).LR0().States) - 1
+	return mk(n - base)
 }
 
 func c12Eval(w *Worker, c *GCase) {
@@ -83,11 +104,15 @@ func c12Eval(w *Worker, c *GCase) {
 		key = "start=" + c.Spec.Start + " types=" + fmt.Sprint(c.Spec.Types) + " " + key
 	}
 	text := c.Spec.Render()
-	res := ygo.Build(text, ygo.Options{Fuel: buildFuel})
+	fuel := int64(buildFuel)
+	if strings.HasPrefix(c.Origin, "family:states-") {
+		fuel = 400_000_000 // large automata legitimately need more loop iterations
+	}
+	res := ygo.Build(text, ygo.Options{Fuel: fuel})
 	// the same grammar written the other common way: terminals as character literals that are
 	// never declared, no ';' after the rule groups. The verdict must be the same.
 	if alt := c12Alt(c.Spec); alt != "" {
-		res2 := ygo.Build(alt, ygo.Options{Fuel: buildFuel})
+		res2 := ygo.Build(alt, ygo.Options{Fuel: fuel})
 		w.Count("alternative_renderings", 1)
 		if res2.OK() != res.OK() || res2.Fuel != res.Fuel {
 			w.Violate("C12|verdict-depends-on-rendering|"+key, fmt.Sprintf("grammar [%s]: written with %%token names and ';' yaccgo answers %q, written with undeclared character literals and without ';' it answers %q", key, okOr(res), okOr(res2)), c,
